@@ -37,6 +37,49 @@ def eq(i: int, j: int, oc: bool) -> None:
 eq.ranges = lambda consts: dict(i=(0, len(D.EQPOOL) - 1), j=(0, len(D.EQPOOL) - 1))
 
 
+def clsdef(touch: bool, oc: bool, c1: int, v1: int, c2: int, v2: int) -> None:
+    """The instance never set `a`; its per-instance Parameter object may or may not exist (touch); the class default
+    changes (twice); then the instance assigns: old is the value attribute access returned just before, a changes-only
+    watcher is called exactly when that value differs from the new one."""
+    import param
+    from sx.api import check, untraced, pickbool
+    touch, oc = pickbool(touch), pickbool(oc)
+    with untraced():
+        class P(param.Parameterized):
+            a = param.Integer(default=0)
+        p = P()
+    if touch:
+        p.param.a          # creates the per-instance Parameter object
+    P.a = c1
+    log = []
+    p.param.watch(lambda e: log.append((e.old, e.new, e.type)), 'a', onlychanged=oc)
+    P.a = c2
+    before = p.a
+    p.a = v1
+    info = {'class_default_changed': True, 'instance_parameter_exists': touch, 'onlychanged': oc}
+    changed = True if before != v1 else False
+    if changed or not oc:
+        check('C03.once', len(log) == 1, dict(info, calls=len(log)))
+        if log:
+            check('C03.oldnew', log[0][0] == before and log[0][1] == v1, dict(info, old=log[0][0], before=before))
+            check('C03.type', log[0][2] == ('changed' if oc else 'set'), dict(info, type=log[0][2]))
+    else:
+        check('C03.once', len(log) == 0, dict(info, calls=len(log), unchanged=True))
+    n = len(log)
+    before = p.a
+    p.a = v2
+    changed = True if before != v2 else False
+    if changed or not oc:
+        check('C03.once', len(log) == n + 1, dict(info, second=True))
+        if len(log) > n:
+            check('C03.oldnew', log[-1][0] == before and log[-1][1] == v2, dict(info, second=True))
+    else:
+        check('C03.once', len(log) == n, dict(info, second=True, unchanged=True))
+
+
+clsdef.ranges = lambda consts: dict(c1=(-2, 2), c2=(-2, 2), v1=(-2, 2), v2=(-2, 2))
+
+
 def _ranges(consts):
     r = {}
     q = consts['nw'] == 2
@@ -57,6 +100,8 @@ def shards(tier):
     k, nw = (2, 2) if q else (3, 3)
     for i in range(len(D.EQPOOL)):
         out.append(dict(name='eq_%d' % i, module='harness.c03', fn='eq', consts=dict(i=i), budget_s=60 if q else 300))
+    for touch in (False, True):
+        out.append(dict(name='clsdef_%d' % touch, module='harness.c03', fn='clsdef', consts=dict(touch=touch), budget_s=40 if q else 120))
     for n1 in ((0, 2, 3) if q else range(5)):
         for n2 in range(4 if q else 5):
             if q and (n1, n2) not in ((0, 0), (0, 2), (2, 1), (3, 0), (2, 2), (0, 3)):
